@@ -1,10 +1,11 @@
 """C18 — the generated Rust binding defines types with the same Candid meaning (structural clauses)."""
 import re
 
-from facts import AnchorMissing, callee, calls, expr_path, lit_value, nodes, peel, short, unblock, walk
+from facts import (AnchorMissing, callee, calls, expr_path, lit_value, nodes, pat_alternatives, pat_head, pat_variants, peel, short,
+                   unblock, walk)
 from shared import TI, Spec, arm_rows, the_match, variant_paths
-from c18_util import (ancestors, bind_names, chain_pieces, contains, fmt_template, let_of, local_name, parent_map,
-                      resolve_local, resolve_scoped, show, str_lits, tuple_position, value_leaves)
+from c18_util import (ancestors, bind_names, chain_pieces, contains, diverges, fmt_template, let_of, local_name, parent_map,
+                      resolve_local, resolve_scoped, show, str_lits, value_leaves)
 
 TITLE = ("C18: the primitive/constructor table of rust::pp_ty closes with the library's CandidType impls; every insert "
          "into the nominalised environment is collision-checked; the emitted field/variant identifier (or its serde "
@@ -293,7 +294,7 @@ def run(chk, facts, tier, only=None):
                 if a.get("k") == "match" and re.search(r"TypeInner$", a.get("sty", "")):
                     for arm in a["arms"]:
                         if contains(arm["body"], n):
-                            hs = [short(x) for x in __import__("facts").pat_variants(arm["pat"]) if (x or "").startswith(TI)]
+                            hs = [short(x) for x in pat_variants(arm["pat"]) if (x or "").startswith(TI)]
                             ctx = "+".join(hs) or "_"
                     break
             mapname = "TypeEnv.0"
@@ -325,6 +326,10 @@ def run(chk, facts, tier, only=None):
                                 if ln_ in bind_names(le["pat"]) and src is None:
                                     p = expr_path(le["init"]) or ""
                                     src = ".".join(p.split(".")[-2:]) or None
+                        if a.get("k") == "match" and a.get("src") == "Normal" and src is None and \
+                                any(ln_ in bind_names(arm["pat"]) and contains(arm["body"], lf) for arm in a["arms"]):
+                            p = expr_path(a["scrut"]) or ""
+                            src = ".".join(p.split(".")[-2:]) or None
                         if a.get("k") == "match" and a.get("src") == "ForLoopDesugar" and src is None \
                                 and (callee(a["scrut"]) or "").endswith("Iterator::next") \
                                 and any(ln_ in bind_names(arm["pat"]) and contains(arm["body"], lf) for arm in a["arms"]):
@@ -373,8 +378,7 @@ def run(chk, facts, tier, only=None):
                         if contains(st, n):
                             break
                         s = st["e"] if st.get("k") == "semi" else st
-                        if s.get("k") == "if" and tests_key(s["c"]) and (nodes(s["t"], "ret") or nodes(s["t"], "continue")
-                                                                          or nodes(s["t"], "break") or is_panic(s["t"])):
+                        if s.get("k") == "if" and tests_key(s["c"]) and diverges(s["t"]):
                             tested = True
                         if s.get("k") == "loop" and tests_key(s):
                             tested = True       # `while map.contains_key(&name) { name = … }` before the insert
@@ -415,7 +419,7 @@ def run(chk, facts, tier, only=None):
                 raise AnchorMissing(f"candid_derive::{fname}: the `match attrs.rename` deciding the label was not found ({len(ms)})")
             row = {}
             for a in ms[0]["arms"]:
-                hd = short(__import__("facts").pat_head(a["pat"]))
+                hd = short(pat_head(a["pat"]))
                 hashes = calls(a["body"], r"idl_hash$")
                 if len(hashes) != 1:
                     raise AnchorMissing(f"candid_derive::{fname}: arm {hd} of `match attrs.rename` has {len(hashes)} idl_hash calls")
@@ -433,7 +437,7 @@ def run(chk, facts, tier, only=None):
                       and re.search(r"Option<proc_macro2::Ident>$", m.get("sty", ""))]
                 if len(om) != 1:
                     raise AnchorMissing("candid_derive::fields_from_ast: `match field.ident` around `match attrs.rename` not found")
-                none = [a for a in om[0]["arms"] if short(__import__("facts").pat_head(a["pat"])) == "None"]
+                none = [a for a in om[0]["arms"] if short(pat_head(a["pat"])) == "None"]
                 out["named-only-hash"] = all(not calls(a["body"], r"idl_hash$") for a in none) and len(none) == 1
         # the attribute the derive reads
         g = d.fn(r"candid_derive::derive::get_attrs$")
@@ -453,8 +457,8 @@ def run(chk, facts, tier, only=None):
         h = fn("pp_label")
         m = the_match(h, r"Label$", 2)
         LB = "candid::types::internal::Label::"
-        named = [a for a in m["arms"] if [short(x) for x in __import__("facts").pat_variants(a["pat"])] == ["Named"]]
-        numeric = [a for a in m["arms"] if set(short(x) for x in __import__("facts").pat_variants(a["pat"])) & {"Id", "Unnamed"}]
+        named = [a for a in m["arms"] if [short(x) for x in pat_variants(a["pat"])] == ["Named"]]
+        numeric = [a for a in m["arms"] if set(short(x) for x in pat_variants(a["pat"])) & {"Id", "Unnamed"}]
         if len(named) != 1 or len(numeric) != 1:
             raise AnchorMissing(f"pp_label: expected one arm for Label::Named and one for Label::Id|Unnamed, found {len(named)}/{len(numeric)}")
         arm = named[0]
@@ -511,8 +515,17 @@ def run(chk, facts, tier, only=None):
             esc = False
             if okshape:
                 e = unblock(pieces[idx[0] + 1][1])
-                while isinstance(e, dict) and e.get("k") == "mcall" and e["m"] in ("to_string", "collect", "to_owned", "into"):
-                    e = unblock(e["recv"])
+                parl = parent_map(h["body"])
+                for _ in range(6):
+                    while isinstance(e, dict) and e.get("k") == "mcall" and e["m"] in ("to_string", "collect", "to_owned", "into", "clone"):
+                        e = unblock(e["recv"])
+                    if isinstance(e, dict) and e.get("k") == "path" and (e.get("res") or {}).get("kind") == "Local" \
+                            and e["res"]["path"] != lab:
+                        ls = resolve_scoped(parl, e)
+                        if len(ls) == 1 and ls[0] is not e:
+                            e = unblock(ls[0])
+                            continue
+                    break
                 if isinstance(e, dict) and e.get("k") == "mcall" and e["m"] == "escape_debug":
                     esc = True
                     r = unblock(e["recv"])
@@ -722,12 +735,12 @@ def run(chk, facts, tier, only=None):
 
         def root_heads(pat):
             out = set()
-            for alt in __import__("facts").pat_alternatives(pat):
-                hd = __import__("facts").pat_head(alt)
+            for alt in pat_alternatives(pat):
+                hd = pat_head(alt)
                 if isinstance(hd, str) and hd.endswith("Option::None"):
                     out.add("None")
                 elif isinstance(hd, str) and hd.endswith("Option::Some"):
-                    inner = [short(x) for x in __import__("facts").pat_variants(alt) if (x or "").startswith(TP)]
+                    inner = [short(x) for x in pat_variants(alt) if (x or "").startswith(TP)]
                     out.add("Some(" + "|".join(inner) + ")" if inner else "Some(_)")
                 else:
                     out.add(str(hd))
